@@ -350,6 +350,7 @@ func ExecOne(body Body, prefix []int) int {
 	}
 	if out.Violation != "" {
 		fmt.Println("violation:", out.Violation)
+		fmt.Println("violation-key:", out.Key)
 		return 1
 	}
 	return 0
